@@ -19,7 +19,7 @@ import (
 
 var resFaults = []string{"rotate-keep-old", "rotate-drop-old", "restart-keep-key", "restart-lose-key", "change-suites", "change-client-auth", "disable-tickets", "enable-tickets", "evict-by-other-name", "other-server-shared-key", "other-server-own-key",
 	"change-max-version", "clone-config", "ticket-byte-flip", "ticket-truncated", "ticket-extended", "ticket-suite-not-offered", "ticket-genuine-via-reference-client", "clock-jump", "connection-damaged-after-ticket", "change-client-cas"}
-var resReach = []string{"resumed", "full-handshake", "resumed-with-old-key-ticket-refreshed", "fallback-after-rotation", "fallback-suite-change", "fallback-client-auth", "fallback-tickets-off", "fallback-evicted", "fallback-forged-ticket", "completeness-checked", "soundness-checked", "master-equal-checked", "wire-decoded-resumed", "gm-mode", "tls-mode", "client-cert-in-ticket", "history>=4", "refclient-tls12", "wire-decoded-resumed-tls12", "policy-forbids-failed", "ticket-seen-in-failed-handshake"}
+var resReach = []string{"resumed", "full-handshake", "resumed-with-old-key-ticket-refreshed", "fallback-after-rotation", "fallback-suite-change", "fallback-client-auth", "fallback-tickets-off", "fallback-evicted", "fallback-forged-ticket", "completeness-checked", "soundness-checked", "master-equal-checked", "wire-decoded-resumed", "gm-mode", "tls-mode", "client-cert-in-ticket", "history>=4", "refclient-tls12", "wire-decoded-resumed-tls12", "policy-forbids-failed", "ticket-seen-in-failed-handshake", "per-connection-config"}
 
 func init() {
 	register(Family{Name: "tls-resumption", Prop: "C16", ID: 1601, Weight: 1, FaultNames: resFaults, ReachNames: resReach, Run: runResumption})
@@ -33,6 +33,7 @@ type resSrv struct {
 	policy     gmtls.ClientAuthType
 	ticketsOff bool
 	maxVers    uint16 // TLS mode: 0 = default (TLS 1.2)
+	second     bool   // GMSSL: serves the second identity (server2.sim)
 	otherCAs   bool   // ClientCAs switched to a root that did not issue the client's certificate
 	ent        *simkit.Stream
 	keylog     *bytes.Buffer
@@ -109,12 +110,20 @@ func runResumption(c *simkit.Choice, r *simkit.Rec) {
 	}
 	nextGen := 1
 	skew := int64(0)
-	mkCfg := func(sv *resSrv) {
+	// perConn: the listener's configuration hands every connection a freshly built
+	// Config through GetConfigForClient (no ticket keys of its own: "the session
+	// ticket keys of the original Config are used", rotations included)
+	perConn := c.Bool(1, 4, simkit.LScen)
+	var mkCfg func(sv *resSrv)
+	build := func(sv *resSrv) *gmtls.Config {
 		cfg := &gmtls.Config{Rand: sv.ent, Time: simTime(s, 0), KeyLogWriter: sv.keylog, ClientAuth: sv.policy, ClientCAs: pki.Pool("caA"), SessionTicketsDisabled: sv.ticketsOff}
 		cfg.Time = func() time.Time { return simkit.TimeAt(s.Now + skew) }
 		if gm {
 			cfg.GMSupport = gmtls.NewGMSupport()
 			cfg.Certificates = gmServerCerts("srv-sign", "srv-enc")
+			if sv.second {
+				cfg.Certificates = gmServerCerts("srv2-sign", "srv2-enc")
+			}
 		} else {
 			cfg.Certificates = []gmtls.Certificate{pki.GMStd("tlsrsa")}
 			cfg.ClientCAs = pki.Pool("rsaCA")
@@ -128,6 +137,14 @@ func runResumption(c *simkit.Choice, r *simkit.Rec) {
 		}
 		cfg.CipherSuites = sv.suites
 		cfg.MaxVersion = sv.maxVers
+		return cfg
+	}
+	mkCfg = func(sv *resSrv) {
+		cfg := build(sv)
+		if perConn {
+			cfg.GetConfigForClient = func(*gmtls.ClientHelloInfo) (*gmtls.Config, error) { return build(sv), nil }
+			r.Reach(idx(resReach, "per-connection-config"))
+		}
 		kb := keyBytes(seed, sv.keys[0])
 		cfg.SessionTicketKey = kb
 		if len(sv.keys) > 1 {
@@ -168,10 +185,8 @@ func runResumption(c *simkit.Choice, r *simkit.Rec) {
 	if sharedKey {
 		evict.keys = []int{srvs[0].keys[0]} // the other name is served by the same farm (same ticket key)
 	}
+	evict.second = true
 	mkCfg(evict)
-	if gm {
-		evict.cfg.Certificates = gmServerCerts("srv2-sign", "srv2-enc")
-	}
 
 	cache := gmtls.NewLRUClientSessionCache(capacity)
 	clientLog := &bytes.Buffer{}
